@@ -199,7 +199,7 @@ class UndirectedMultigraph : private LabeledUndirectedGraph<EdgeMultiplicity> {
         assertVertexInRange(vertex2);
 
         if (multiplicity == 0) {
-            removeEdge(vertex1, vertex2);
+            removeAllEdges(vertex1, vertex2);
         } else if (hasEdge(vertex1, vertex2)) {
             auto &currentMultiplicity =
                 edgeLabels[orderedEdge(vertex1, vertex2)];
